@@ -355,6 +355,10 @@ func (re *Regexp) findAllRunesIndex(runner *Runner, input []rune, startAt, n int
 		flat = make([]int, 0, n*2)
 	}
 
+	// An empty match that touches the previous match is dropped. Matches arrive
+	// in scan order, so for right-to-left patterns the edge of the previous
+	// match that the next one can touch is its start, not its end.
+	rtl := re.RightToLeft()
 	prevEnd := -1
 	previousMatchLength := -1
 	for n != 0 {
@@ -371,6 +375,9 @@ func (re *Regexp) findAllRunesIndex(runner *Runner, input []rune, startAt, n int
 			flat = append(flat, start, end)
 			out = append(out, flat[len(flat)-2:len(flat):len(flat)])
 			prevEnd = m.RuneIndex + m.RuneLength
+			if rtl {
+				prevEnd = m.RuneIndex
+			}
 			if n > 0 {
 				n--
 			}
